@@ -14,7 +14,10 @@ PROFILE = gen.Profile(
 PROFILE_SPARSE = gen.Profile(**{**PROFILE.__dict__, "p_nested": 0.8, "max_nested_rows": 4, "p_rtc_off": 0.3,
                                 "p_group": dict(validators=0.1, cond=0.15, unless=0.05, before=0.2, on=0.25, after=0.5,
                                                 enter=0.5, exit=0.3)})
-PROFILE_ASYNC = gen.Profile(**{**PROFILE.__dict__, "p_coro": 0.5, "drivers": ("facade", "loop"), "p_rtc_off": 0.0})
+# (p_write: the model field assigned from outside — e.g. the record loaded after the machine was created, before its
+# activation: the first event then runs behind the engine's own resumed activation and must still hand back its result)
+PROFILE_ASYNC = gen.Profile(**{**PROFILE.__dict__, "p_coro": 0.5, "drivers": ("facade", "loop"), "p_rtc_off": 0.0,
+                               "p_write": 0.12})
 PROFILE_CHAIN = gen.Profile(**{**PROFILE.__dict__, "p_rtc_off": 0.5, "p_nested": 0.0, "p_raise": 0.0, "p_validator_raise": 0.0,
                                "p_unknown_event": 0.05, "p_coro": 0.15, "drivers": ("sync", "facade", "loop"), "max_events": 5})
 
